@@ -89,13 +89,13 @@ Lemma Forall2_map_arel a b (l : list Q) : Forall2 (arel a b) l (map (fun v => a 
 Proof. induction l; cbn; constructor; [unfold arel; reflexivity|assumption]. Qed.
 
 (* the statements on mapped lists *)
-Lemma mean_affine_map a b l :
+Lemma meanQ_map_lemma a b l :
   l <> [] -> meanQ (map (fun v => a * v + b) l) == a * meanQ l + b.
 Proof. intros Hn. exact (meanQ_arel a b _ _ (Forall2_map_arel a b l) Hn). Qed.
-Lemma var_affine_map a b l :
+Lemma varQ_map_lemma a b l :
   l <> [] -> varQ (map (fun v => a * v + b) l) == a * a * varQ l.
 Proof. intros Hn. exact (varQ_arel a b _ _ (Forall2_map_arel a b l) Hn). Qed.
-Lemma median_affine_map a b l :
+Lemma qmedian_map_lemma a b l :
   0 < a -> l <> [] -> qmedian (map (fun v => a * v + b) l) == a * qmedian l + b.
 Proof. intros Ha Hn. exact (qmedian_equivariant a b Ha _ _ (Forall2_map_arel a b l) Hn). Qed.
 
